@@ -30,6 +30,7 @@ import bs2c  # noqa: E402
 from cxxtypes import ExtractionError  # noqa: E402
 
 REPO = os.environ.get('BSV_REPO', '/repo')
+EVDIR = os.environ.get('BSV_EVIDENCE_DIR') or os.path.join(os.path.dirname(os.path.dirname(os.path.abspath(__file__))), 'evidence')
 SCRATCH = os.environ.get('BSV_SCRATCH') or os.path.join(os.environ.get('TMPDIR', '/var/tmp'), 'bsv-%d' % os.getpid())
 TIMEOUT = int(os.environ.get('BSV_TIMEOUT', '300'))
 MEMLIMIT_KB = int(os.environ.get('BSV_MEM_KB', str(12 * 1024 * 1024)))
@@ -50,7 +51,8 @@ class Undecided(Exception):
 # --------------------------------------------------------------------------
 class Block:
     def __init__(self):
-        self.name = None          # C name of the function, or lemma name
+        self.name = None          # C name of the function (optionally 'name#variant'), or lemma name
+        self.fn = None            # C name of the function
         self.kind = 'function'    # function | lemma
         self.unit = 'core'
         self.requires = []
@@ -162,6 +164,7 @@ def parse_ctr(path):
                 b = Block()
                 b.kind = head['kind']
                 b.name = _subst(head['name'], env)
+                b.fn = b.name.split('#')[0]
                 b.file, b.line = path, head['line']
                 b.env = env
                 for ln2, k2, r2 in head['clauses']:
@@ -230,6 +233,10 @@ def add_clause(b, kw, rest, path, ln):
         b.timeout = int(rest)
     elif kw == 'unwind':
         b.unwind = int(rest)
+    elif kw == 'split':
+        b.split = True
+    elif kw == 'noinit':
+        b.noinit = True
     elif kw == 'define':
         b.defines = getattr(b, 'defines', []) + rest.split()
     elif kw == 'tier':
@@ -325,7 +332,8 @@ def get_unit(unit, blocks, mode):
     ctrs = {}
     for b in blocks:
         if b.kind == 'function' and b.unit == unit and b.mode in (mode, 'BOTH'):
-            ctrs[b.name] = loop_clauses(b)
+            if '#' not in b.name or b.name not in ctrs:
+                ctrs.setdefault(b.fn, {}).update(loop_clauses(b))
     u.contracts = ctrs
     u.cty(bs2c.parse_type('std::shared_ptr<std::vector<double>>'))
     u.cty(bs2c.Ty('__gnu_cxx::__normal_iterator', [bs2c.Ty('double'), bs2c.Ty('std::vector', [bs2c.Ty('double')])]))
@@ -336,15 +344,70 @@ def get_unit(unit, blocks, mode):
 # --------------------------------------------------------------------------
 #  C generation for one block
 # --------------------------------------------------------------------------
+def ensure_type(u, name):
+    """make sure the C struct `name` used by a lemma body is defined (lemmas name types, not functions)"""
+    if name in u.type_done and u.type_done[name] is not None:
+        return
+    m = re.match(r'arr_T_(\d+)$', name)
+    if m:
+        u.cty(bs2c.Ty('std::array', [bs2c.Ty('double'), int(m.group(1))]))
+        return
+    m = re.match(r'vec_arr_T_(\d+)$', name)
+    if m:
+        u.cty(bs2c.Ty('std::vector', [bs2c.Ty('std::array', [bs2c.Ty('double'), int(m.group(1))])]))
+        return
+    if name == 'vec_T':
+        u.cty(bs2c.Ty('std::vector', [bs2c.Ty('double')]))
+        return
+    if name == 'opt_size':
+        u.cty(bs2c.Ty('std::optional', [bs2c.Ty('unsigned long')]))
+        return
+    for key in list(u.records):
+        try:
+            t = u.canon(bs2c.parse_type(key.replace(',', ', ')))
+            if u.mangle(t) == name:
+                u.cty(t)
+                return
+        except ExtractionError:
+            continue
+    raise Undecided('lemma uses the unknown type struct %s' % name)
+
+
+def _components(u, t):
+    if t.name == 'std::array':
+        out = []
+        for i in range(t.args[1]):
+            out += ['.c[%d]%s' % (i, c) for c in _components(u, t.args[0])]
+        return out
+    return ['']
+
+
+def vec_eq_shim(u, m):
+    """std::vector<X>::operator== as an assumed contract from the C++ standard, in witness form: equal => same
+    length and equal elements at the arbitrary position gr; different => different lengths or the elements at
+    the witness position bs_veq_w differ"""
+    info = u.type_done[m]
+    comps = _components(u, info[1])
+    eq = lambda i: '(' + ' && '.join('a.d[%s]%s == b.d[%s]%s' % (i, c, i, c) for c in comps) + ')'
+    return ['/* std::vector operator== (assumed contract, witness form) */',
+            '_Bool %s_eq(struct %s a, struct %s b)' % (m, m, m),
+            '  __CPROVER_ensures(__CPROVER_return_value ==> (a.n == b.n && (!(gr < a.n && gr < BS_CAP) || %s)))' % eq('gr'),
+            '  __CPROVER_ensures(!__CPROVER_return_value ==> (a.n != b.n || (bs_veq_w < a.n && bs_veq_w < BS_CAP && !%s)))' % eq('bs_veq_w'),
+            '  __CPROVER_assigns(bs_veq_w)',
+            ';']
+
+
 def gen_c(b, blocks, path):
     mode = 'IEEE' if b.mode == 'IEEE' else 'EXACT'
     u = get_unit(b.unit, blocks, b.mode)
     byname = {x.name: x for x in blocks if x.kind == 'function' and x.unit == b.unit and x.mode in (b.mode, 'BOTH')}
+    if b.kind == 'function':
+        byname[b.fn] = b          # the variant under proof supplies the clauses of its own function
     roots = []
     if b.kind == 'function':
-        if b.name not in u.fn_by_cname:
+        if b.fn not in u.fn_by_cname:
             raise Undecided('contract block %s (%s:%d) matches no instantiated function' % (b.name, b.file, b.line))
-        roots.append(b.name)
+        roots.append(b.fn)
     for r in b.replace:
         if r not in u.fn_by_cname:
             raise Undecided('replaced callee %s of block %s matches no instantiated function' % (r, b.name))
@@ -354,6 +417,9 @@ def gen_c(b, blocks, path):
         for w in set(re.findall(r'\b[A-Za-z_][A-Za-z_0-9]*\b', ' '.join(b.body))):
             if w in u.fn_by_cname:
                 roots.append(w)
+    if b.kind == 'lemma':
+        for nm in sorted(set(re.findall(r'\bstruct (\w+)', ' '.join(b.body)))):
+            ensure_type(u, nm)
     start = len(u.order)
     for r in roots:
         fi = u.fn_by_cname[r]
@@ -392,6 +458,10 @@ def gen_c(b, blocks, path):
     out.append('#include "%s/rt/bs_rt_post.h"' % ROOT)
     out.append('#include "%s/rt/spec.h"' % ROOT)
     out.append('#include "%s/rt/harness.h"' % ROOT)
+    used_text = '\n'.join('\n'.join(fi.body) for fi in order)
+    for kind, m in sorted(u.shim_need):
+        if kind == 'vec_eq' and m != 'vec_T' and (m + '_eq(') in used_text:
+            out += vec_eq_shim(u, m)
     for fi in order:
         out.append(fi.sig + ';')
     linemap = {}      # line number -> (function, kind, tags, text)
@@ -399,7 +469,7 @@ def gen_c(b, blocks, path):
         cb = byname.get(fi.cname)
         out.append('/* %s:%s-%s */' % (fi.src[0], fi.src[1], fi.src[2]))
         out.append(fi.sig)
-        if cb is not None and (fi.cname == b.name or fi.cname in b.replace):
+        if cb is not None and (fi.cname == b.fn or fi.cname in b.replace):
             for kind, tags, text in clause_lines(cb):
                 out.append('  ' + text)
                 linemap[len(out)] = (fi.cname, kind, tags, text)
@@ -410,9 +480,10 @@ def gen_c(b, blocks, path):
     hname = 'h_' + re.sub(r'\W', '_', b.name)
     out.append('void %s(void)' % hname)
     out.append('{')
-    out.append('  bs_harness_init();')
+    if not getattr(b, 'noinit', False):
+        out.append('  bs_harness_init();')
     if b.kind == 'function':
-        fi = u.fn_by_cname[b.name]
+        fi = u.fn_by_cname[b.fn]
         args = []
         if fi.is_method and not fi.is_static and not fi.is_ctor:
             out.append('  %s self;' % u.cty(fi.cls))
@@ -425,7 +496,7 @@ def gen_c(b, blocks, path):
             args.append(nm)
         for s in b.pre:
             out.append('  ' + s)
-        call = '%s(%s)' % (b.name, ', '.join(args))
+        call = '%s(%s)' % (b.fn, ', '.join(args))
         if fi.rkind == 'void':
             out.append('  %s;' % call)
         else:
@@ -500,10 +571,18 @@ def cbmc_cmd(gb, solver, extra):
 
 
 _uniq = itertools.count()
+import threading  # noqa: E402
+# at most NPROC/2 portfolios (two solver processes each) run at any time, whatever the nesting of thread pools
+_slots = threading.BoundedSemaphore(max(1, int(os.environ.get('BSV_NPROC', str(os.cpu_count() or 8))) // 2))
 
 
 def portfolio(gb, solvers, extra, timeout):
     """run the solvers in parallel; the first one that gives a definitive answer wins, the others are killed"""
+    with _slots:
+        return _portfolio(gb, solvers, extra, timeout)
+
+
+def _portfolio(gb, solvers, extra, timeout):
     procs = []
     t0 = time.time()
     for s in solvers:
@@ -571,21 +650,31 @@ def prepare_loops(gb_in, gb_out, ctext, cfile, b):
     lines = ctext.split('\n')
     contracted = set()
     for i, l in enumerate(lines):
-        if re.match(r'\s*(for|while) \(', l) and i + 1 < len(lines) and re.match(r'\s*__CPROVER_(assigns|loop_invariant|decreases)\(', lines[i + 1]):
+        if re.match(r'\s*(for|while) \(', l) and ('__CPROVER_loop_invariant(' in l or (
+                i + 1 < len(lines) and re.match(r'\s*__CPROVER_(assigns|loop_invariant|decreases)\(', lines[i + 1]))):
             contracted.add(i + 1)
     if not contracted:
         return gb_in, []
     rc, out, err, dt = sh(['goto-instrument', '--show-loops', gb_in], 120)
     ids = []
+    kdef = getattr(b, 'unwind', None) or 10
     for m in re.finditer(r'Loop (\S+):\n\s+file (\S+) line (\d+) function', out):
         lid, f, ln = m.group(1), m.group(2), int(m.group(3))
         if os.path.abspath(f) == os.path.abspath(cfile) and ln in contracted:
             continue
-        ids.append(lid)
+        k = kdef
+        if os.path.abspath(f) == os.path.abspath(cfile) and 0 < ln <= len(lines):
+            # template-constant bound written out in the loop condition: unwind exactly that far
+            mm = re.search(r'(?:<|!=)\s*\(?([0-9UL+\-() ]+?)\)*;', lines[ln - 1])
+            if mm:
+                try:
+                    k = int(eval(re.sub(r'[UL]', '', mm.group(1)))) + 1
+                except Exception:
+                    k = kdef
+        ids.append('%s:%d' % (lid, max(1, k)))
     if not ids:
         return gb_in, ['--apply-loop-contracts']
-    k = getattr(b, 'unwind', None) or 10
-    rc, out, err, dt = sh(['goto-instrument', '--unwindset', ','.join('%s:%d' % (i, k) for i in ids),
+    rc, out, err, dt = sh(['goto-instrument', '--unwindset', ','.join(ids),
                            '--unwinding-assertions', gb_in, gb_out], 300)
     if rc != 0:
         raise Undecided('pre-unwinding failed: ' + (err + out)[-800:])
@@ -602,11 +691,12 @@ def list_properties(gb):
     return ids
 
 
-def decide(gb, b, tmo):
+def decide(gb, b, tmo, only=None):
     """all obligations of one instrumented program: first in one query per solver; if no solver settles
     that within FAST_TIMEOUT, obligation by obligation (the conjunction is often much harder than its parts)"""
     solvers = b.solvers or SOLVERS
-    outs = portfolio(gb, solvers, [], min(tmo, FAST_TIMEOUT))
+    # blocks with loop contracts go obligation by obligation at once: their single query rarely finishes
+    outs = [] if (b.loops or getattr(b, 'split', False) or only is not None) else portfolio(gb, solvers, [], min(tmo, FAST_TIMEOUT))
     if outs and outs[0]['status'] == 'done' and all(x.get('status') in ('SUCCESS', 'FAILURE') for x in outs[0]['results']):
         for p in outs[0]['results']:
             p['solver'] = outs[0]['solver']
@@ -614,6 +704,8 @@ def decide(gb, b, tmo):
     props = list_properties(gb)
     if not props:
         return None, '; '.join('%s:%s %s' % (o['solver'], o['status'], (o.get('msg') or '')[:200]) for o in outs)
+    if only is not None:
+        props = [p for p in props if p in set(only)]
     hard = [p for p in props if HARD_RE.search(p) and '__CPROVER_contracts' not in p]
     easy = [p for p in props if p not in hard]
     merged = {}
@@ -624,9 +716,23 @@ def decide(gb, b, tmo):
             extra += ['--property', p]
         o = portfolio(gb, solvers, extra, tmo)
         return plist, o
-    groups = [[p] for p in hard] + ([easy] if easy else [])
-    with cf.ThreadPoolExecutor(max_workers=6) as ex:
-        for plist, o in ex.map(one, groups):
+    CH = 24
+    groups = [[p] for p in hard] + [easy[i:i + CH] for i in range(0, len(easy), CH)]
+
+    def one_retry(plist):
+        plist, o = one(plist)
+        decided = {x['property'] for c in o if c['status'] == 'done' for x in c['results']
+                   if x.get('status') in ('SUCCESS', 'FAILURE')}
+        if len(plist) > 1 and not set(plist) <= decided:
+            # a chunk that does not finish is retried obligation by obligation
+            res = []
+            for p in plist:
+                if p not in decided:
+                    res.append(one([p]))
+            return [(plist, o)] + res
+        return [(plist, o)]
+    with cf.ThreadPoolExecutor(max_workers=8) as ex:
+        for plist, o in [item for sub in ex.map(one_retry, groups) for item in sub]:
             got = {}
             for cand in o:
                 if cand['status'] == 'done':
@@ -659,26 +765,16 @@ def refute_small(r, b, cfile, hname, cmd, ids, tmo):
         src_gb, _ = prepare_loops(base + '.s.gb', base + '.su.gb', ctext, cfile, b)
     except Undecided:
         return set()
-    cmd2 = list(cmd)
-    cmd2[-2], cmd2[-1] = src_gb, base + '.t.gb'
+    cmd2 = [x for x in cmd]
+    # loop flags of the main run sit just before the two file names
+    cmd2 = cmd2[:-2] + [src_gb, base + '.t.gb']
     rc, out, err, dt = sh(cmd2, 300)
     if rc != 0:
         return set()
-    failed = set()
-
-    def one(p):
-        o = portfolio(base + '.t.gb', b.solvers or SOLVERS, ['--property', p], min(tmo, 120))
-        for cand in o:
-            if cand['status'] == 'done':
-                for x in cand['results']:
-                    if x['property'] == p and x.get('status') == 'FAILURE':
-                        return p
-        return None
-    with cf.ThreadPoolExecutor(max_workers=6) as ex:
-        for p in ex.map(one, ids):
-            if p:
-                failed.add(p)
-    return failed
+    results, how = decide(base + '.t.gb', b, min(tmo, 120), only=ids)
+    if results is None:
+        return set()
+    return {x['property'] for x in results if x.get('status') == 'FAILURE'}
 
 
 class BlockResult:
@@ -758,12 +854,12 @@ def run_block(r, blocks, keep=False, verbose=False):
         return r
     cmd = ['goto-instrument', '--dfcc', hname]
     if b.kind == 'function' and not b.noharness:
-        cmd += ['--enforce-contract', b.name]
+        cmd += ['--enforce-contract', b.fn]
     for g in b.replace:
         cmd += ['--replace-call-with-contract', g]
     ctext = open(cfile).read()
     body_text = ctext[ctext.index('#include "%s/rt/harness.h"' % ROOT):]
-    for shim in SHIM_CONTRACTS:
+    for shim in SHIM_CONTRACTS + sorted(set(re.findall(r'\b(vec_\w+_eq)\(', body_text))):
         if re.search(r'\b%s\(' % shim, body_text):
             cmd += ['--replace-call-with-contract', shim]
     try:
@@ -789,16 +885,27 @@ def run_block(r, blocks, keep=False, verbose=False):
                               'line': (p.get('sourceLocation') or {}).get('line'),
                               'solver': p.get('solver')})
     r.solver = ','.join(sorted({p.get('solver') or '?' for p in results}))
-    bad = [x for x in r.obligations if x['status'] == 'FAILURE']
+    unwind_fail = [x for x in r.obligations if x['status'] == 'FAILURE' and '.unwind.' in (x['id'] or '')]
+    bad = [x for x in r.obligations if x['status'] == 'FAILURE' and x not in unwind_fail]
     und = [x for x in r.obligations if x['status'] not in ('SUCCESS', 'FAILURE')]
-    if und and not bad:
-        # refutation attempt in the quantifier-free small instance (grids of at most 4 points): a failure
-        # there is a failure of the general obligation, a success there proves nothing
-        rf = refute_small(r, b, cfile, hname, cmd, [x['id'] for x in und], tmo)
+    r.bounded_only = False
+    if (und or unwind_fail) and not bad:
+        # Small instance (every vector capped at 8 elements, ghost relations defined from the contents, all
+        # loops unwound completely): a failure there is a failure of the general obligation; a success there
+        # proves nothing.  It decides (a) obligations the solvers cannot refute in the presence of quantified
+        # assumptions and (b) functions that have acquired a loop without a loop contract -- then *every*
+        # obligation is re-examined, because truncated paths make the unbounded run's successes meaningless.
+        ids = None if unwind_fail else [x['id'] for x in und]
+        rf = refute_small(r, b, cfile, hname, cmd, ids, tmo)
         for x in r.obligations:
-            if x['id'] in rf:
+            if x['id'] in rf and '.unwind.' not in (x['id'] or ''):
                 x['status'] = 'FAILURE'
                 x['refuted_in'] = 'quantifier-free instance: every vector capped at 8 elements'
+        if unwind_fail:
+            r.bounded_only = True
+            for x in unwind_fail:
+                x['status'] = 'UNKNOWN'
+                x['desc'] = (x['desc'] or '') + ' -- a loop whose bound depends on run-time data has no loop contract'
         bad = [x for x in r.obligations if x['status'] == 'FAILURE']
         und = [x for x in r.obligations if x['status'] not in ('SUCCESS', 'FAILURE')]
     if not r.obligations:
@@ -917,7 +1024,7 @@ def check_property(pid, tier, blocks, verbose=True):
     violations, knowns = [], []
     n_obl = n_dis = 0
     samples, functions, solver_time, by_solver = [], {}, 0.0, {}
-    os.makedirs(os.path.join(ROOT, 'evidence', 'replay'), exist_ok=True)
+    os.makedirs(os.path.join(EVDIR, 'replay'), exist_ok=True)
     for r in res:
         functions.update(r.srcs)
         solver_time += r.time
@@ -979,7 +1086,7 @@ def check_property(pid, tier, blocks, verbose=True):
         'wall_s': round(time.time() - t0, 1),
         'violations': len(violations),
     }
-    with open(os.path.join(ROOT, 'evidence', pid + '.json'), 'w') as f:
+    with open(os.path.join(EVDIR, pid + '.json'), 'w') as f:
         json.dump(ev, f, indent=1)
     if verbose:
         print('%s: %d blocks, %d/%d obligations discharged, %d violations, %d known, %d undecided, %.1fs' % (
@@ -989,7 +1096,7 @@ def check_property(pid, tier, blocks, verbose=True):
 
 def make_replay(pid, r, o, n, blocks):
     """write the replay file of one failed obligation; returns (path, confirmed_on_real_code)"""
-    path = os.path.join(ROOT, 'evidence', 'replay', '%s-%d.json' % (pid, n))
+    path = os.path.join(EVDIR, 'replay', '%s-%d.json' % (pid, n))
     rec = {'property': pid, 'block': r.block.name, 'obligation': o['id'], 'clause': clause_of(r, o),
            'description': o['desc'], 'sources': r.srcs, 'mode': r.block.mode, 'solver': o['solver'],
            'verifier_output': '%s: %s' % (o['id'], o['status']), 'inputs': None, 'confirmed': False}
